@@ -432,7 +432,8 @@ def round (prog : Program) (fuel : Nat) (st : Source.St) : Round :=
   let lines := linesOf st1.out.reverse
   let visible := st1.pending.filter (!·.invisible)
   let offered := visible.map (fun p => ({ text := p.text, tags := p.tags } : Line))
-  let st2 := { st1 with out := [], fnStarts := [] }
+  let masked := st1.safeExitStands
+  let st2 := { st1 with out := [], fnStarts := [], safeExitNl := none }
   match r.1 with
   | .failed kind =>
     { turn := { lines := lines, choices := [] }, st2 := st2, visible := visible,
@@ -446,6 +447,7 @@ def round (prog : Program) (fuel : Nat) (st : Source.St) : Round :=
           | .done => (.done, [])
           | .outOfContent =>
             if !st2.pending.isEmpty then (.done, [])
+            else if masked then (.done, [])
             else if st2.stack.any (!·.isThread) then (.done, ["tunnel_end"])
             else (.done, ["ran_out"])) }
     else { turn := turn, st2 := st2, visible := visible, fin := none }
@@ -475,7 +477,9 @@ theorem loop_eq (prog : Program) (fuel n : Nat) (st : Source.St) (todo : List Na
     · split <;> try rfl
       split
       · rfl
-      · split <;> rfl
+      · split
+        · rfl
+        · split <;> rfl
     · rfl
 
 theorem round_fin_some {prog : Program} {fuel : Nat} {st : Source.St} {s : Status} {e : List String}
@@ -500,7 +504,9 @@ theorem round_fin_some {prog : Program} {fuel : Nat} {st : Source.St} {s : Statu
         · cases h; simp
         · split at h
           · cases h; simp
-          · split at h <;> (cases h; simp)
+          · split at h
+            · cases h; simp
+            · split at h <;> (cases h; simp)
       · simp only [hv, ↓reduceIte]
         simpa using hv
     · cases h
